@@ -263,7 +263,7 @@ fn verify_says_ok(m: &ConsensusMessage, w: &World) -> Option<bool> {
     .ok()
 }
 
-fn run_node(rep: &mut Report, tier: Tier, stakes: &[u32], node: usize, max_round: u64, depth: usize, with_aggr: bool) {
+pub fn run_node(rep: &mut Report, tier: Tier, stakes: &[u32], node: usize, max_round: u64, depth: usize, with_aggr: bool) {
     let cfg = Cfg {
         name: format!("c04(stakes={:?},node=n{},R={},depth={})", stakes, node, max_round, depth),
         stakes: stakes.to_vec(),
@@ -407,6 +407,9 @@ fn run_node(rep: &mut Report, tier: Tier, stakes: &[u32], node: usize, max_round
                                 let want_key = s.locals.get(want.next).key.clone();
                                 let got_out: BTreeSet<(MsgId, u8)> = res.out.iter().cloned().collect();
                                 let want_out: BTreeSet<(MsgId, u8)> = want.out.iter().map(|p| s.pitem(*p)).collect();
+                                if (got_key != want_key || got_out != want_out) && std::env::var("HSV_DEBUG").is_ok() {
+                                    eprintln!("DEBUG c04 mismatch at state {} hist {:?}\n follow {}\n want_out {:?}\n got_out {:?}\n want_key {:?}\n got_key {:?}", lid, s.locals.get(lid).history.iter().map(|e| s.describe_ev(e)).collect::<Vec<_>>(), s.describe_ev(&follow), want_out, got_out, want_key, got_key);
+                                }
                                 if got_key != want_key || got_out != want_out {
                                     bad = Some(format!("its reaction to the following {} differs from the reaction without the invalid message", s.describe_ev(&follow)));
                                     break;
